@@ -513,7 +513,10 @@ def split_two_sexp(t):
 
 
 def expect_ok(got, want):
-    """`want` ending in * is a prefix pattern."""
+    """`want` ending in * is a prefix pattern. `skip` = the case lies outside the operation's domain (e.g. serde_json
+    itself refuses the text, so there is no value path to speak about): no expectation applies."""
+    if got == "skip":
+        return True
     if want.endswith("*"):
         return got.startswith(want[:-1])
     return got == want
